@@ -953,6 +953,60 @@ theorem save_then_load_text (e : Enforcer) (hk : e.adapter.kind = .file ∨ e.ad
   rw [foldl_insertMove_nodup _ [] (hwf sec pt) (by simp)]
   simp
 
+/-! ### clear_policy -/
+
+theorem clearGo_adapter (x : Enforcer) (r : Enforcer × Option ErrKind)
+    (hr : r = (if ({ x with store := x.store.clear } : Enforcer).autoBuild then ({ x with store := x.store.clear } : Enforcer).buildRoleLinks
+      else (({ x with store := x.store.clear } : Enforcer), none))) :
+    (match r with
+      | (e, r) => match r with
+        | some k => (e, Res.err k)
+        | none => (e.emit .clearPolicy, Res.unit)).1.adapter = x.adapter := by
+  have h : r.1.adapter = x.adapter := by
+    subst hr
+    split
+    · unfold Enforcer.buildRoleLinks; rfl
+    · rfl
+  obtain ⟨e2, res⟩ := r
+  cases res with
+  | none => simp only []; rw [(emit_fields _ _).2]; exact h
+  | some k => exact h
+
+theorem clearGo_adapter_P (x : Enforcer) (r : Enforcer × Option ErrKind)
+    (hr : r = (if ({ x with store := x.store.clear } : Enforcer).autoBuild then ({ x with store := x.store.clear } : Enforcer).buildRoleLinks
+      else (({ x with store := x.store.clear } : Enforcer), none))) (P : AdapterSt → Prop) (hP : P x.adapter) :
+    P (match r with
+      | (e, r) => match r with
+        | some k => (e, Res.err k)
+        | none => (e.emit .clearPolicy, Res.unit)).1.adapter := by
+  rw [clearGo_adapter x r hr]; exact hP
+
+/-- **`clear_policy` with auto-save on empties the store behind the adapter whatever the enforcer holds in memory** - also
+when it holds nothing (a second clear, a clear after a filtered load that kept nothing): no stored line or text survives
+a clear the adapter accepts, so no later addition is vetoed because of a leftover -/
+theorem clear_empties_adapter (e : Enforcer) (hs : e.autoSave = true) (hp : e.adapter.plan = []) :
+    e.clearPolicy.1.adapter.kind = e.adapter.kind ∧
+    (e.adapter.kind = .memory → e.clearPolicy.1.adapter.lines = []) ∧
+    (e.adapter.kind = .file ∨ e.adapter.kind = .string → e.clearPolicy.1.adapter.text = []) := by
+  have hclear : (e.adapter.clear).2 = some () ∧ (e.adapter.clear).1.kind = e.adapter.kind ∧
+      (e.adapter.kind = .memory → (e.adapter.clear).1.lines = []) ∧
+      (e.adapter.kind = .file ∨ e.adapter.kind = .string → (e.adapter.clear).1.text = []) := by
+    unfold AdapterSt.clear AdapterSt.nextFault
+    rw [hp]
+    cases hk : e.adapter.kind <;> simp [hk]
+  unfold Enforcer.clearPolicy
+  rw [if_pos hs]
+  split
+  · rename_i a heq
+    rw [heq] at hclear
+    exact absurd hclear.1 (by simp)
+  · rename_i a heq
+    rw [heq] at hclear
+    obtain ⟨_, h2, h3, h4⟩ := hclear
+    exact clearGo_adapter_P ({ e with adapter := a } : Enforcer) _ rfl
+      (fun ad => ad.kind = e.adapter.kind ∧ (e.adapter.kind = .memory → ad.lines = []) ∧
+        (e.adapter.kind = .file ∨ e.adapter.kind = .string → ad.text = [])) ⟨h2, h3, h4⟩
+
 /-! ### Non-vacuity -/
 example : SafeField "a,b".toList := ⟨by decide, by decide, by decide, by decide⟩
 example : SafeField "d é".toList := ⟨by decide, by decide, by decide, by decide⟩
